@@ -96,6 +96,11 @@ func devCmd(args []string) {
 			fmt.Printf("%s: %v\n", n, err)
 			continue
 		}
+		for a := range enc.assumptions {
+			if strings.HasPrefix(a, "uncontracted") {
+				fmt.Println("  note:", a)
+			}
+		}
 		res := SolveAll(enc.obls, *out, *timeout, 6)
 		for _, o := range enc.obls {
 			r := res[o]
